@@ -5,7 +5,7 @@ use crate::contracts::nft::{NftBase, NftCons, NftEnum};
 use crate::examples;
 use crate::report::Report;
 use crate::rng::Rng;
-use crate::world::{invoke, tag, Fail, Inv, World};
+use crate::world::{Must, invoke, tag, Fail, Inv, World};
 use crate::Cfg;
 use soroban_sdk::{Address, String as SString, Val, Vec as SVec};
 use std::collections::{BTreeMap, BTreeSet};
@@ -125,16 +125,16 @@ impl<'a> Tok<'a> {
     }
     fn balance(&self, a: usize) -> u32 {
         let e = &self.w.env;
-        invoke(e, &self.c, "balance", args!(e, self.u[a])).expect("balance")
+        invoke(e, &self.c, "balance", args!(e, self.u[a])).must("balance")
     }
     fn approved(&self, id: u32) -> Option<usize> {
         let e = &self.w.env;
-        let r: Option<Address> = invoke(e, &self.c, "get_approved", args!(e, id)).expect("get_approved");
+        let r: Option<Address> = invoke(e, &self.c, "get_approved", args!(e, id)).must("get_approved");
         r.map(|a| self.u.iter().position(|x| *x == a).unwrap_or(usize::MAX))
     }
     fn is_operator(&self, o: usize, op: usize) -> bool {
         let e = &self.w.env;
-        invoke(e, &self.c, "is_approved_for_all", args!(e, self.u[o], self.u[op])).expect("is_approved_for_all")
+        invoke(e, &self.c, "is_approved_for_all", args!(e, self.u[o], self.u[op])).must("is_approved_for_all")
     }
 }
 
@@ -578,7 +578,7 @@ pub fn history(cfg: &Cfg, rep: &mut Report, fl: Fl, h: u64, steps: usize, mode: 
         }
         // enumerations mirror ownership
         if fl.is_enum() && mode == Mode::Ownership {
-            let ts: u32 = invoke(e, &c, "total_supply", args!(e)).expect("total_supply");
+            let ts: u32 = invoke(e, &c, "total_supply", args!(e)).must("total_supply");
             rep.check("inv", ts as usize == m.owner.len(), &format!("C10/inv/{site}/total_supply"), || format!("total_supply {ts}, live tokens {}", m.owner.len()));
             if ts <= 300 {
                 let mut glob: Vec<u32> = vec![];
